@@ -209,6 +209,23 @@ impl Gantry {
 }
 
 
+/// Constructors for external verification harnesses (the fields are private and there is
+/// no other public constructor). Compiled only with the cargo feature `verif_hooks`.
+#[cfg(feature = "verif_hooks")]
+impl LinearAxis {
+    pub fn verif_new(robot: Arc<dyn Kinematics>, axis: u32, base: Isometry3<f64>) -> Self {
+        LinearAxis { robot, axis, base }
+    }
+}
+
+#[cfg(feature = "verif_hooks")]
+impl Gantry {
+    pub fn verif_new(robot: Arc<dyn Kinematics>, base: Isometry3<f64>) -> Self {
+        Gantry { robot, base }
+    }
+}
+
+
 #[cfg(test)]
 mod tests {
     use std::f64::consts::PI;
